@@ -1022,6 +1022,7 @@ def final_checks(mon):
         # C20 (records truthful, greedy individuals never get worse) applies to every task of a history as it stands
         mon.check_c02(sp, 'return')
         check_c01_args(mon)
+        check_c04(mon)
         check_c20(mon)
         return
     mon.check_c02(sp, 'return')
@@ -1140,7 +1141,7 @@ def run_task(cfg):
             if '@' in k or ':position-moved-after-its-evaluation' in k:
                 return k
             return 'history:' + re.sub(r'^(PSO|AIWPSO|RPSO):', 'PSO-family:', k)
-        viol = [dict(v, key=hkey(v['key'])) for v in viol if v['property'] in ('C01', 'C02', 'C07', 'C12', 'C20')]
+        viol = [dict(v, key=hkey(v['key'])) for v in viol if v['property'] in ('C01', 'C02', 'C04', 'C07', 'C12', 'C20')]
     if cfg.get('reuse_optimizer'):
         # the observed space is fresh: every single-task oracle applies and a violation keeps its single-task key
         viol = [v for v in viol if v['property'] != 'C05']
